@@ -25,7 +25,7 @@ func TestVerifC11(t *testing.T) {
 	runs := 0
 	for _, rel := range []string{"behind", "equal", "ahead", "diverged"} {
 		for _, repl := range []string{"running", "ioerror", "sqlerror", "none"} {
-			for _, ro := range []string{"sro", "rw"} {
+			for _, ro := range []string{"sro", "rw", "rw_cannot_fence"} {
 				for _, stuck := range []bool{false, true} {
 					for _, rfile := range []bool{false, true} {
 						for _, order := range []string{"hostfirst", "managerfirst", "withswitch"} {
@@ -43,6 +43,10 @@ func TestVerifC11(t *testing.T) {
 							if order == "withswitch" {
 								sc.Req = reqSpec{Kind: "to", To: "h3"}
 								sc.Manager = "h1"
+							}
+							if ro == "rw_cannot_fence" {
+								// the manager's attempts to make it read-only keep failing: it stays writable
+								sc.Fault = &faultSpec{Chan: "sql", Stmt: "SetSuperReadOnly", At: "h2", Occ: 0, Kind: "fail"}
 							}
 							var rows []map[string]any
 							marked := true
@@ -63,7 +67,7 @@ func TestVerifC11(t *testing.T) {
 										h3.Exec.Add("h1:50")
 										h2.Exec.Add("h2:9")
 									}
-									h2.RO = ro
+									h2.RO = strings.SplitN(ro, "_", 2)[0]
 									h2.SsS, h2.SsSAct = false, false
 									switch repl {
 									case "ioerror":
